@@ -362,11 +362,38 @@ func (ff *fieldFlow) sentinelTest(cond ssa.Value, b *ssa.BasicBlock, succIdx int
 	if negEdge != succIdx {
 		return 0, false
 	}
-	// the result: a call, possibly through a phi-free local (go/ssa keeps `x = f()` as the call value itself)
-	call, ok := bo.X.(*ssa.Call)
-	if !ok {
+	// the result: a call, possibly through a phi-free local (go/ssa keeps `x = f()` as the call value itself), or — for a
+	// loop written `n := f(); for n < 0 { ...; n = f() }` — a phi in this very block all of whose edges are such calls, each
+	// the last thing that can change the field in the predecessor it comes from
+	if call, ok := bo.X.(*ssa.Call); ok {
+		return ff.sentinelFromCall(call, b)
+	}
+	ph, ok := bo.X.(*ssa.Phi)
+	if !ok || ph.Block() != b {
 		return 0, false
 	}
+	for _, in := range b.Instrs {
+		if ff.invalidates(in) {
+			return 0, false
+		}
+	}
+	var res nilState
+	for i, e := range ph.Edges {
+		call, ok := e.(*ssa.Call)
+		if !ok || i >= len(b.Preds) || call.Block() != b.Preds[i] || len(b.Preds[i].Succs) != 1 {
+			return 0, false
+		}
+		st, ok := ff.sentinelFromCall(call, b.Preds[i])
+		if !ok || (i > 0 && st != res) {
+			return 0, false
+		}
+		res = st
+	}
+	return res, len(ph.Edges) > 0
+}
+
+// sentinelFromCall: see sentinelTest; call is in block b and nothing after it in b can change the field.
+func (ff *fieldFlow) sentinelFromCall(call *ssa.Call, b *ssa.BasicBlock) (nilState, bool) {
 	g := call.Call.StaticCallee()
 	if g == nil || !ff.sh.p.InModule(g) {
 		return 0, false
